@@ -33,15 +33,61 @@ func Quiet() {
 	})
 }
 
-// FreePort returns a TCP port on 127.0.0.1 that was free a moment ago.
+var (
+	portMu     sync.Mutex
+	portsGiven = map[int]bool{}
+)
+
+// FreePort returns a TCP port on 127.0.0.1 that was free a moment ago and that this process
+// has not handed out before (the kernel likes to hand the port just released out again).
 func FreePort() int {
-	ln, err := net.Listen("tcp", "127.0.0.1:0")
-	if err != nil {
-		panic(err)
+	portMu.Lock()
+	defer portMu.Unlock()
+	var held []net.Listener
+	defer func() {
+		for _, l := range held {
+			l.Close()
+		}
+	}()
+	for {
+		ln, err := net.Listen("tcp", "127.0.0.1:0")
+		if err != nil {
+			panic(err)
+		}
+		p := ln.Addr().(*net.TCPAddr).Port
+		if portsGiven[p] {
+			held = append(held, ln) // keep it busy so that the next try gets another one
+			continue
+		}
+		portsGiven[p] = true
+		ln.Close()
+		return p
 	}
-	p := ln.Addr().(*net.TCPAddr).Port
-	ln.Close()
-	return p
+}
+
+// ListenFresh opens a listener on a loopback port never handed out by FreePort.
+func ListenFresh() net.Listener {
+	portMu.Lock()
+	defer portMu.Unlock()
+	var held []net.Listener
+	defer func() {
+		for _, l := range held {
+			l.Close()
+		}
+	}()
+	for {
+		ln, err := net.Listen("tcp", "127.0.0.1:0")
+		if err != nil {
+			panic(err)
+		}
+		p := ln.Addr().(*net.TCPAddr).Port
+		if portsGiven[p] {
+			held = append(held, ln)
+			continue
+		}
+		portsGiven[p] = true
+		return ln
+	}
 }
 
 // Site is a running casket instance (server type http).
